@@ -748,3 +748,11 @@ package res
 //@   modifies all
 //@   ensures drained: imp(isNil(err), wgcount == 0 && connCloses == old(connCloses) + 1)
 //@   ensures refused: imp(!isNil(err), connCloses == old(connCloses))
+//@
+//@ func (s *Service) Logger() (l logger.Logger)
+//@   requires s != nil
+//@   ensures same(l, s.logger)
+//@ func (s *Service) Resource(rid string) (r Resource, err error)
+//@   requires s != nil && s.Mux != nil
+//@   modifies alloc, res.Match.Handler, res.Match.Listeners, res.Match.Params, res.Match.Group, res.resource.rname, res.resource.pathParams, res.resource.query, res.resource.group, res.resource.h, res.resource.listeners, res.resource.s
+//@   ensures imp(isNil(err), !isNil(r))
